@@ -187,6 +187,15 @@ def cur_warm(X_current, y_current, pi, recompute_every):
     return pi
 
 
+def cur_warm_residual(X_current, y_current, selected_idx, axis, tolerance):
+    # warm start: every previously selected item whose residual (the item itself, taken along
+    # the selection axis) is still above the tolerance is projected out again
+    for c in selected_idx:
+        if np.linalg.norm(np.take(X_current, [c], axis=axis)) > tolerance:
+            X_current, y_current = orthogonalize(X_current, y_current, c)
+    return X_current, y_current
+
+
 def compute_pi(X_current, y_current):
     """uninterpreted in the cadence obligations (the checker substitutes the same
     symbol for this function and for the class's _compute_pi)"""
